@@ -9,10 +9,10 @@ parameterisations - the full product, nothing sampled:
           x {archive on a file, archive over HTTP}
           x {output absent, empty, equal to the source, same chunks reversed, a prefix, source + junk, unrelated junk}
           x every subset of {--force-create, --seed-output, --verify-output}
-          x {no seed, a seed file holding half of the source, the same seed on stdin}
+          x {no seed, a seed file holding half of the source, the same seed on stdin, the output path itself named as seed (refusal cells only)}
           (+ -vv on every 4th cell)
   compress  {empty, 40-byte, 3000-byte source} x {file, stdin input} x {fixed, rollsum, default chunker}
-          x {none, brotli} x {output absent, empty, shorter junk, longer junk, the same archive already there}
+          x {none, brotli} x {output absent, empty, shorter junk, longer junk, the same archive already there, absent with a stale temp file of an interrupted run}
           x {--force-create or not} (+ -vv on every 4th cell)
 
 One run per cell in a private directory that is snapshotted before and after. A small model of
@@ -139,7 +139,7 @@ ARCHIVES = [
 ]
 STATES = ["absent", "empty", "equal", "reversed", "prefix", "longer", "junk"]
 FLAGS = ["-f", "--seed-output", "--verify-output"]
-SEEDS = ["none", "file", "stdin"]
+SEEDS = ["none", "file", "stdin", "output-itself"]
 
 
 def source_of(kind):
@@ -192,6 +192,9 @@ def run_clone_cell(bita, root, idx, cell, arch_paths, server, viol):
     elif cell["seed"] == "stdin":
         argv += ["--seed", "-"]
         stdin_data = seed_data
+    elif cell["seed"] == "output-itself":
+        # the output path named as a seed: must not change whether the command refuses
+        argv += ["--seed", "out.img"]
     target = server.url(f"{name}.cba", f"cell={idx:05d}") if cell["transport"] == "http" else arch_paths[cell["archive"]]
     argv += [target, "out.img"]
     before = snapshot(d)
@@ -204,6 +207,10 @@ def run_clone_cell(bita, root, idx, cell, arch_paths, server, viol):
         viol.add("path-other-than-output-touched", detail)
     in_place = "--seed-output" in cell["flags"]
     refuse = prior is not None and "-f" not in cell["flags"] and not in_place
+    if cell["seed"] == "output-itself" and not refuse:
+        # a seed that does not exist (absent output) is an error; reading the output as a seed while it is
+        # being overwritten is outside what the properties promise: only the refusal cells are judged
+        return "not-judged"
     if refuse:
         if r.returncode == 0:
             viol.add("refusal-expected-but-exit-zero", detail)
@@ -238,7 +245,7 @@ C_CHUNKERS = [("fixed64", ["--fixed-size", "64B"]),
               ("rollsum", ["--hash-chunking", "RollSum", "--rolling-window-size", "16B", "--min-chunk-size", "32B", "--avg-chunk-size", "64B", "--max-chunk-size", "256B"]),
               ("default", [])]
 C_COMPS = [("none", ["--compression", "none"]), ("brotli", ["--compression", "brotli", "--compression-level", "4"])]
-C_STATES = ["absent", "empty", "shorter", "longer", "same"]
+C_STATES = ["absent", "empty", "shorter", "longer", "same", "stale-temp"]
 
 
 def compress_cells():
@@ -271,7 +278,11 @@ def run_compress_cell(bita, root, idx, cell, refs, viol):
     d = os.path.join(root, f"z{idx}")
     os.makedirs(d)
     out = os.path.join(d, "out.cba")
-    prior = {"absent": None, "empty": b"", "shorter": b"old" * 9, "longer": ref + b"an older and longer file " * 400, "same": ref}[cell["state"]]
+    prior = {"absent": None, "empty": b"", "shorter": b"old" * 9, "longer": ref + b"an older and longer file " * 400, "same": ref, "stale-temp": None}[cell["state"]]
+    if cell["state"] == "stale-temp":
+        # the temp file of an earlier, interrupted run of the same command is still there (larger than this run's)
+        with open(os.path.join(d, "out..tmp"), "wb") as f:
+            f.write(b"stale chunk data " * 4096)
     if prior is not None:
         with open(out, "wb") as f:
             f.write(prior)
@@ -289,7 +300,8 @@ def run_compress_cell(bita, root, idx, cell, refs, viol):
     after = snapshot(d)
     changes = diff(before, after)
     detail = dict(cell, source_name=sname, exit=r.returncode, changes=changes[:6], stderr=r.stderr.decode(errors="replace")[-300:])
-    if [c for c in changes if c[0] != "out.cba"]:
+    # (the command's own temp file is used and removed: a stale one disappears with it)
+    if [c for c in changes if c[0] != "out.cba" and not (cell["state"] == "stale-temp" and c == ("out..tmp", "removed"))]:
         viol.add("path-other-than-output-touched", detail)
     refuse = prior is not None and not cell["force"]
     if refuse:
